@@ -1051,15 +1051,23 @@ fn cli_stage(args: &Args) {
     let to = Duration::from_millis(args.u64("timeout_ms", 10_000));
     let max = args.u64("max", 400) as usize;
     let mut rng = Rng::new(args.seed());
-    let mut items: Vec<(String, Vec<u8>)> = vec![];
+    // stratified sample: the same number of inputs from every family, seeded
+    let mut by_fam = std::collections::BTreeMap::<String, Vec<Vec<u8>>>::new();
     for v in &inputs {
         let fam = v["fam"].as_str().unwrap_or("").to_string();
         for b in input_bytes(v) {
-            items.push((fam.clone(), b));
+            by_fam.entry(fam.clone()).or_default().push(b);
         }
     }
+    let nf = by_fam.len().max(1);
+    let mut items: Vec<(String, Vec<u8>)> = vec![];
+    for (fam, mut v) in by_fam {
+        rng.shuffle(&mut v);
+        v.truncate(max.div_ceil(nf));
+        items.extend(v.into_iter().map(|b| (fam.clone(), b)));
+    }
     rng.shuffle(&mut items);
-    items.truncate(max);
+    let per_input = args.u64("cmds", 6) as usize;
     let tmp = args.str("tmp", "/tmp");
     let file = format!("{}/c19-cli-input-{}", tmp, std::process::id());
     // (label, args, uses stdin)
@@ -1078,6 +1086,7 @@ fn cli_stage(args: &Args) {
         ("yq -o json .", vec!["yq", "-o", "json", "."]),
         ("yq -o json -I 0 .", vec!["yq", "-o", "json", "-I", "0", "."]),
         ("yq -P .", vec!["yq", "-P", "."]),
+        ("yq -I 0 .", vec!["yq", "-I", "0", "."]),
         ("yq -S .", vec!["yq", "-S", "."]),
         ("yq [..]", vec!["yq", "-o", "json", "[..]"]),
         ("yq -p json .", vec!["yq", "-p", "json", "."]),
@@ -1096,13 +1105,19 @@ fn cli_stage(args: &Args) {
     let mut runs = 0u64;
     let mut inconclusive = 0u64;
     for (id, (fam, bytes)) in items.iter().enumerate() {
-        let is_prog = fam == "jq";
-        let cmds = if is_prog { &prog_cmds } else { &doc_cmds };
+        let is_prog = fam == "jq" || fam == "jq1";
+        let all = if is_prog { &prog_cmds } else { &doc_cmds };
+        // a seeded subset of the commands per input spreads the runs over inputs
+        let mut idx: Vec<usize> = (0..all.len()).collect();
+        rng.shuffle(&mut idx);
+        idx.truncate(per_input.max(1));
+        idx.sort();
+        let cmds: Vec<&(&str, Vec<&str>)> = idx.iter().map(|i| &all[*i]).collect();
         if is_prog && (std::str::from_utf8(bytes).is_err() || bytes.contains(&0)) {
             continue;
         }
         std::fs::write(&file, bytes).unwrap_or_else(|e| die(&format!("write {file}: {e}")));
-        for (label, a) in cmds {
+        for (label, a) in cmds.iter().map(|c| (&c.0, &c.1)) {
             let argv: Vec<String> = a
                 .iter()
                 .map(|x| match *x {
